@@ -32,6 +32,7 @@ func C07(c *Ctx) {
 	r.Rule("C07-j", "the marks of the left-recursion analysis have one owner: Visited and Nullable are stored only by the NullableVisit methods, LeftRecursive and Leader only by ComputeLeftRecursives (or a helper only they call), and no composite literal sets them; Rule.NullableVisit reads a set Visited as `being visited` and answers `not nullable` without looking, so a mark left behind by another pass hides every path through that rule")
 	analysisMarkOwners(c, g, "C07-j")
 	r.Rule("C07-w", "a sequence's visit stops at its first non-nullable item (the dual of C07-v): on every path of SeqExpr.NullableVisit on which an item answered false the loop is left at once - the items behind it are not at the start position, and visiting them lets the cycle cut of Rule.NullableVisit fire on consuming recursion and freeze a provisional `not nullable` in a rule reference")
+	c07ThrowStandsForHandlers(c, "C07-x")
 	seqVisitStopsAtFirstNonNullable(c, g, "C07-w")
 	kinds, _ := c.exprKinds()
 	if len(kinds) != 18 {
